@@ -59,8 +59,10 @@ def rename(bp, mapping):
     return go(bp)
 
 
-def hostile_mapping(rnd, names, pct=60, allow_bar_backslash=False):
-    """Injective renaming of `names`; each name is replaced with probability pct%."""
+def hostile_mapping(rnd, names, pct=60, allow_bar_backslash=False, functions=()):
+    """Injective renaming of `names`; each name is replaced with probability pct%.  Names of applied functions are
+    never reserved words: (|let| x) is an application in SMT-LIB, but pySMT's tokenizer drops the quotes (the open
+    delimiter-name finding of C09), so that class is kept out of the other checks."""
     used = set(names)
     m = {}
     if rnd.randrange(100) < 15:
@@ -78,6 +80,8 @@ def hostile_mapping(rnd, names, pct=60, allow_bar_backslash=False):
         if rnd.randrange(100) < pct:
             for _ in range(10):
                 h = draw_name(rnd, allow_bar_backslash)
+                if n in functions and h in RESERVED:
+                    continue
                 if h not in used:
                     used.add(h)
                     m[n] = h
